@@ -117,19 +117,18 @@ type lockState struct {
 
 // Sim is one simulated run.
 type Sim struct {
-	ch      chooser.Chooser
-	cfg     Config
-	threads []*thread
-	cur     *thread
-	running bool
-	sr, sw  int // scheduler pipe
-	objIDs  map[uintptr]int
-	locks   map[int]*lockState
-	events  []Event
-	step    int
-	run     uint64
-	// PoolHook, if set, is told about every pool decision (for probes).
-	PoolHook func(get bool, n, choice int)
+	ch       chooser.Chooser
+	cfg      Config
+	threads  []*thread
+	cur      *thread
+	running  bool
+	sr, sw   int // scheduler pipe
+	objIDs   map[uintptr]int
+	locks    map[int]*lockState
+	poolSize map[int]int // simulated pool contents, by object id
+	events   []Event
+	step     int
+	run      uint64
 }
 
 var (
@@ -154,6 +153,10 @@ func hookActive() bool { s := theSim; return s != nil && s.running }
 func hookYield(kind int, obj uintptr, a, b int64) int64 {
 	return theSim.yield(kind, obj, a, b)
 }
+
+// PoolHookFunc, if set, is told about every pool decision (for probes). It is
+// called on the scheduler goroutine.
+var PoolHookFunc func(get bool, n, choice int)
 
 // OrderFunc is consulted by simsync.MapOrder when non-nil (single-threaded
 // checks install it per run).
@@ -474,7 +477,7 @@ func Run(ch chooser.Chooser, cfg Config, bodies []func(tid int)) *Result {
 		cfg.MaxSteps = 100000
 	}
 	sp := getPipe()
-	s := &Sim{ch: ch, cfg: cfg, sr: sp[0], sw: sp[1], objIDs: map[uintptr]int{}, locks: map[int]*lockState{}}
+	s := &Sim{ch: ch, cfg: cfg, sr: sp[0], sw: sp[1], objIDs: map[uintptr]int{}, locks: map[int]*lockState{}, poolSize: map[int]int{}}
 	races0 := runtime_RaceErrors()
 	setSim(s)
 	s.setRunning(true)
@@ -626,7 +629,10 @@ func (s *Sim) grant(t *thread) int64 {
 	case simsync.KRLock:
 		s.lock(ev.Obj).readers++
 	case simsync.KPoolGet:
-		n := int(ev.A)
+		// The pool's contents as of now (the count sent with the yield may be
+		// stale: other threads have run since).
+		n := s.poolSize[ev.Obj]
+		ev.A = int64(n)
 		c := 0
 		switch s.cfg.PoolPolicy {
 		case 1:
@@ -642,8 +648,11 @@ func (s *Sim) grant(t *thread) int64 {
 			// by mapping draw 0 to a fresh object.
 			c = s.ch.Draw(n+1, "poolget")
 		}
-		if s.PoolHook != nil {
-			s.PoolHook(true, n, c)
+		if PoolHookFunc != nil {
+			PoolHookFunc(true, n, c)
+		}
+		if c > 0 && c <= n {
+			s.poolSize[ev.Obj]--
 		}
 		ev.B = int64(c)
 		return int64(c)
@@ -654,8 +663,11 @@ func (s *Sim) grant(t *thread) int64 {
 				keep = 0
 			}
 		}
-		if s.PoolHook != nil {
-			s.PoolHook(false, int(ev.A), keep)
+		if PoolHookFunc != nil {
+			PoolHookFunc(false, s.poolSize[ev.Obj], keep)
+		}
+		if keep == 1 && s.poolSize[ev.Obj] < 32 {
+			s.poolSize[ev.Obj]++
 		}
 		ev.B = int64(keep)
 		return int64(keep)
